@@ -15,8 +15,8 @@ Notation wfe := (wfe true ctor_ok).
 Notation wfb := (wfb true ctor_ok).
 Notation vrel := (vrel ctor_ok gfuncs).
 Notation erel := (erel ctor_ok gfuncs).
-Notation peval := (peval gfuncs).
-Notation pevals := (pevals gfuncs).
+Notation peval := (peval ctor_ok gfuncs).
+Notation pevals := (pevals ctor_ok gfuncs).
 Notation Geval := (Geval gfuncs gvars).
 Notation Gevals := (Gevals gfuncs gvars).
 Notation Gexec := (Gexec gfuncs gvars).
@@ -27,6 +27,12 @@ Notation glookup := (glookup gfuncs).
 Hypothesis Hfuns : forall f ps b, lookup f sfuns = Some (ps, b) ->
   exists k, lookup f gfuncs = Some (ps, compile_block k b) /\
             Forall (fun x => reserved x = false) ps /\ wfb b.
+Hypothesis Hctor1 : forall u c, ctor_ok u c true ->
+  lookup (ctor_name u c) gfuncs =
+  Some (["v"%string], [GSReturn (GStructLit (case_struct u c) [("Value"%string, GVar "v"%string)])]).
+Hypothesis Hctor0 : forall u c, ctor_ok u c false ->
+  lookup (ctor_name u c) gfuncs = None /\
+  lookup (ctor_name u c) gvars = Some (GStructLit (case_struct u c) []).
 
 (** ** equiv *)
 Lemma equiv_refl g : equiv g g.
@@ -126,22 +132,86 @@ Proof.
 Qed.
 
 (** ** pure arguments *)
-Lemma peval_Geval env k a gv t : peval env k a gv -> Geval env (compile k a) t gv t.
+Lemma tuple_pure (gvs:list gval) n :
+  n = List.length gvs -> two_or_three n ->
+  lib_pure gops (tuple_fn n) gvs = Some (GVStruct (tuple_struct (List.length gvs)) (combine tuple_fields gvs)).
 Proof.
-  intros P; inversion P; subst; cbn [compile];
-    auto using G_int, G_str, G_bool, G_var, G_func.
+  intros -> T.
+  destruct gvs as [|a [|b [|c [|d gvs]]]]; cbn [List.length] in *; destruct T as [T|T]; try discriminate T;
+    reflexivity.
 Qed.
+
+Lemma combine_fst {A B} : forall (l1:list A) (l2:list B), List.length l1 = List.length l2 -> map fst (combine l1 l2) = l1.
+Proof. induction l1; intros [|b l2] L; cbn in *; try discriminate; auto. f_equal; auto. Qed.
+Lemma combine_snd {A B} : forall (l1:list A) (l2:list B), List.length l1 = List.length l2 -> map snd (combine l1 l2) = l2.
+Proof. induction l1; intros [|b l2] L; cbn in *; try discriminate; auto. f_equal; auto. Qed.
+Lemma compile_list_length : forall es k, List.length (compile_list k es) = List.length es.
+Proof. induction es; intros; cbn; auto. Qed.
+
+Lemma pevals_length env : forall args k gws, pevals env k args gws -> List.length args = List.length gws.
+Proof. induction args; intros k gws P; inversion P; subst; cbn; eauto. Qed.
+
+Lemma Gs_close genv (ces:list gexpr) t (gs:list gval) t' :
+  (forall rest rvs t2, Gevals genv rest t' rvs t2 -> Gevals genv (ces ++ rest) t (gs ++ rvs) t2) ->
+  Gevals genv ces t gs t'.
+Proof. intros G. specialize (G [] [] t' (Gs_nil _ _ _ _)). rewrite !app_nil_r in G. exact G. Qed.
+
+Lemma peval_Geval_mut env :
+  (forall k a gv, peval env k a gv -> forall t, Geval env (compile k a) t gv t) /\
+  (forall k es gvs, pevals env k es gvs -> forall rest t rvs t',
+     Gevals env rest t rvs t' -> Gevals env (compile_list k es ++ rest) t (gvs ++ rvs) t').
+Proof.
+  apply (peval_mutind ctor_ok gfuncs env
+       (fun k a gv => forall t, Geval env (compile k a) t gv t)
+       (fun k es gvs => forall rest t rvs t', Gevals env rest t rvs t' ->
+                          Gevals env (compile_list k es ++ rest) t (gvs ++ rvs) t'));
+    try (intros; cbn [compile]; auto using G_int, G_str, G_bool, G_var, G_func; fail).
+  - intros. cbn [compile]. eapply G_arith; eauto.
+  - intros. cbn [compile]. eapply G_and_false; eauto.
+  - intros. cbn [compile]. eapply G_and_true; eauto.
+  - intros. cbn [compile]. eapply G_or_true; eauto.
+  - intros. cbn [compile]. eapply G_or_false; eauto.
+  - intros k neg a b ga gb r Pa IHa Pb IHb Q t. cbn [compile].
+    eapply G_libcall; [eapply Gs_cons; [apply IHa|eapply Gs_cons; [apply IHb|apply Gs_nil]]|].
+    apply Gl_pure; [destruct neg; reflexivity|]. destruct neg; cbn [lib_pure gops veq]; rewrite Q; reflexivity.
+  - intros k a b Pa IHa t. cbn [compile].
+    eapply G_libcall; [eapply Gs_cons; [apply IHa|apply Gs_nil]|]. apply Gl_pure; reflexivity.
+  - intros k es gvs Ps IHs T t.
+    change (compile k (ETuple es)) with (GCall (GLib (tuple_fn (List.length es))) (compile_list k es)).
+    eapply G_libcall; [apply Gs_close; intros; apply IHs; eassumption|].
+    apply Gl_pure; [destruct T as [T|T]; rewrite T; reflexivity|].
+    apply tuple_pure; [apply (pevals_length _ _ _ _ Ps)|assumption].
+  - intros k n fs es gvs Ps IHs L t.
+    change (compile k (ERecord n fs es)) with (GStructLit n (combine fs (compile_list k es))).
+    assert (Lc : List.length fs = List.length (compile_list k es)) by (rewrite compile_list_length; assumption).
+    rewrite <- (combine_fst fs (compile_list k es) Lc) at 2.
+    apply G_struct. rewrite (combine_snd _ _ Lc). apply Gs_close; intros; apply IHs; eassumption.
+  - intros. cbn [compile]. eapply G_sel; eauto.
+  - intros k u c Hc Le t. cbn [compile]. destruct (Hctor0 _ _ Hc) as (L1 & L2).
+    eapply G_var_pkgvar; [exact Le|exact L1|exact L2|].
+    change (@nil (string * gval)) with (combine (map fst (@nil (string * gexpr))) (@nil gval)).
+    apply G_struct. apply Gs_nil.
+  - intros k u c a ga Hc Le Pa IHa t. cbn [compile]. eapply G_call.
+    + apply G_var. unfold GoRules.glookup. rewrite Le. rewrite (Hctor1 _ _ Hc). reflexivity.
+    + eapply Gs_cons; [apply IHa|apply Gs_nil].
+    + change (GVStruct (case_struct u c) [("Value"%string, ga)])
+        with (ret_val (Some (GVStruct (case_struct u c) (combine (map fst [("Value"%string, GVar "v"%string)]) [ga])))).
+      eapply Ga_clo; [reflexivity|]. eapply Gx_return. apply G_struct.
+      cbn [map snd]. eapply Gs_cons; [|apply Gs_nil]. apply G_var. reflexivity.
+  - intros k es gvs Ps IHs t.
+    change (compile k (ESlice es)) with (GSliceLit (compile_list k es)).
+    apply G_slice. apply Gs_close; intros; apply IHs; eassumption.
+  - intros k e es gv gvs Pe IHe Ps IHs rest t rvs t' G. cbn [compile_list app].
+    eapply Gs_cons; [apply IHe|apply IHs; exact G].
+Qed.
+
+Lemma peval_Geval env k a gv t : peval env k a gv -> Geval env (compile k a) t gv t.
+Proof. intros P. apply (proj1 (peval_Geval_mut env)); exact P. Qed.
 
 Lemma pevals_Gevals env : forall args k gws rest t rvs t',
   pevals env k args gws -> Gevals env rest t rvs t' ->
   Gevals env (compile_list k args ++ rest) t (gws ++ rvs) t'.
-Proof.
-  induction args as [|a args IH]; intros k gws rest t rvs t' P G; inversion P; subst; cbn; auto.
-  eapply Gs_cons; [apply peval_Geval; eassumption | apply IH; assumption].
-Qed.
-
-Lemma pevals_length env : forall args k gws, pevals env k args gws -> List.length args = List.length gws.
-Proof. induction args; intros k gws P; inversion P; subst; cbn; eauto. Qed.
+Proof. intros args k gws rest t rvs t' P G. apply (proj2 (peval_Geval_mut env) _ _ _ P); exact G. Qed.
 
 (** ** unit blocks *)
 Lemma check_unit_inv u v t v' t' :
